@@ -12,7 +12,7 @@ def corpus(tier, seed):
     for mod in (c01, c02, c04, c05, c14, c16, c17, c18, c19, c20, c09):
         # alternatives are judged as groups in their own property; families with an open known finding of another
         # property fail identically under every configuration, which is not a dependence on the configuration
-        ws = [w for w in mod.witnesses(tier, seed) if not (w.params or {}).get('or_group') and not w.family.startswith('layout.to')]
+        ws = [w for w in mod.witnesses(tier, seed) if not (w.params or {}).get('or_group') and not in_open_finding_family(w)]
         W += ws[(seed + 3) % step::step]
     ws = [w for w in c03.witnesses(tier, seed, 'gnu++14')]
     W += ws[(seed + 1) % (step // 2)::step // 2]
